@@ -26,8 +26,9 @@ MANIFEST = dict(
         "data with 2-5 classes, decision values compared across configurations within the bound derived from the solver accuracy, plus box/simplex constraints, independently recomputed "
         "gradient/KKT/objective, alpha->decision-function map, two-class = binary trainer bit for bit, OVA = per-class binary bit for bit, linear kernel vs dedicated linear solver; ASan/UBSan."),
   note=TRUST + "PARTIAL. Proved only for the model: the decomposition model covers QpMcBoxDecomp (box formulations WW, LLW, ATS, reinforced); QpMcSimplexDecomp (CS, ATM, ADM, MMR: "
-       "mc_simplex_inv), selectWorkingSet beyond its first-order part, BiasSolver/BiasSolverSimplex, QpSolver::solve's loop and the multi-class linear solvers QpMcLinear* are NOT modelled — they are "
-       "covered by the trainer-level oracles only (simplex constraint is checked there up to 1e-12 relative slack: the code itself exceeds C by an ulp). linear_step_gain_nonneg is partial "
+       "mc_simplex_inv), BiasSolver/BiasSolverSimplex, QpSolver::solve's loop and the multi-class linear solvers QpMcLinear* are NOT modelled — they are "
+       "covered by the trainer-level oracles only; QpMcBoxDecomp::selectWorkingSet (first and second order, including the call of maximumGainQuadratic2D with shifted arguments and the "
+       "single-cursor walk over the sparse row) is modelled and tied bit for bit but no theorem is stated about it (simplex constraint is checked there up to 1e-12 relative slack: the code itself exceeds C by an ulp). linear_step_gain_nonneg is partial "
        "(hypothesis |x_i|^2+reg>0; the zero-vector case differs between IEEE inf and Rat division). Configuration invariance is a theorem about exact arithmetic; PSD of Q is proved for kernel matrices given as Gram matrices of explicit features "
        "(linear/polynomial kernels), a hypothesis otherwise; that the real solver reaches the accuracy, and all floating-point effects, are exercised by the correspondence only; "
        "the decision-value tolerance 2*sqrt(2*eps*n*P*C)*sqrt(k(x,x)) is derived on paper from the proved objective bound. uniform_sweep_visits_all, linear_stop_weak and primal_dual_gap of the design are not proved; perm_examples_equivariant is proved at the level of Q and lin "
@@ -318,6 +319,7 @@ FORM_P = {"WW": lambda c: c - 1, "CS": lambda c: c - 1, "LLW": lambda c: c - 1, 
 # decision values only up to a common function added to all classes, so centred values are compared
 CENTRED = {"LLW", "ATM", "ATS", "ADM", "MMR", "RS"}
 SIMPLEX = {"CS", "ATM", "ADM", "MMR"}          # trained by QpMcSimplexDecomp
+ITER_CAP = 300000                              # maxIterations per solve set by harness/c16.cpp
 
 
 def gen_dataset(r, quick):
@@ -416,6 +418,13 @@ def check_train_group(ctx, exe, ds, F, bias, C, eps, kern, cfgs, disp=None):
                 got += f" fam={rr.get('fam')} stz={rr.get('stz')} simplex={rr.get('simplex')}"
             if not want.startswith(got):
                 return f"oracle:dispatch:{F}", f"trainer took {got!r}, generated decision logic says {want!r}", ops
+        capped = F in SIMPLEX and k > 2 and int(rr.get("iters", "0")) >= ITER_CAP
+        if capped and (rr["oracle"] or ("kkt" in rr and float(rr["kkt"]) > epsf * (1 + 1e-6) + 1e-9 * (1 + Cf * n))):
+            # some (inner) solve ran into the iteration limit: with offset the BiasSolver then sees a shrunk problem whose
+            # checkKKT() only looks at the active examples and stops although the true KKT violation is large
+            return (f"F-C16-4:simplex-solver-stalls:{tag}",
+                    f"QpMcSimplexDecomp stalls: config {cfg} used {rr.get('iters')} iterations (limit {ITER_CAP} per solve), reported accuracy {rr.get('acc')}, "
+                    f"independently recomputed KKT violation {rr.get('kkt', '?')} (eps {eps}), dual value {rr.get('value')}", ops)
         if rr["oracle"] == ["solver-did-not-reach-accuracy"] and F in SIMPLEX and k > 2:
             return (f"F-C16-4:simplex-solver-stalls:{tag}",
                     f"QpMcSimplexDecomp stalls: config {cfg} stopped at the iteration limit ({rr.get('iters')} iterations) with KKT violation {rr.get('acc')} "
